@@ -122,6 +122,8 @@ def main():
                 failures.append(("C17-collision-miscompiled", f"{c}: accepted by the macro but {fl}"))
     if rejected_defs:
         print(f"note: {len(rejected_defs)} grid definitions are rejected at compile time on this tree (not a violation): {sorted(rejected_defs)[:10]}", file=sys.stderr)
+    if len(rejected_defs) > max(2, len(meta["definitions"]) // 10) and not failures:
+        machinery.append(f"{len(rejected_defs)} of {len(meta['definitions'])} grid definitions do not compile on this tree - too many to be individual rejections by the macro (first error: {next(iter(rejected_defs.values()))})")
     if len(accepted) < max(1, len(meta["definitions"]) // 2) and not failures:
         machinery.append(f"only {len(accepted)} of {len(meta['definitions'])} definitions produced results")
     # verdicts
